@@ -143,5 +143,76 @@ pub open spec fn seg_post(f0: f64, k0: Knot, f1: f64, k1: Knot, r: Segment<Poly3
         assert(dcubic(__r.poly.0@, X1) == F1);
 //@end
 
+// ---- C05: shape lemmas over the two contracts above (pure real arithmetic) -------------------------------------
+/// lo <= f/s <= hi, written without division (for s == 0 it says nothing)
+pub open spec fn ratio_in(f: real, s: real, lo: real, hi: real) -> bool {
+    lo * (s * s) <= f * s && f * s <= hi * (s * s)
+}
+
+/// C05-a: Kruger's slope is zero at extrema and plateaus, and otherwise lies strictly between 0 and twice each adjacent secant slope
+pub proof fn lemma_kruger_range(s01: real, s12: real)
+    ensures
+        s01 * s12 <= 0real ==> kruger(s01, s12) == 0real,
+        ratio_in(kruger(s01, s12), s01, 0real, 2real),
+        ratio_in(kruger(s01, s12), s12, 0real, 2real),
+{
+    let f = kruger(s01, s12);
+    if s01 * s12 <= 0real {
+        assert(f * s01 == 0real && f * s12 == 0real) by(nonlinear_arith) requires f == 0real;
+        assert(s01 * s01 >= 0real && s12 * s12 >= 0real) by(nonlinear_arith);
+    } else {
+        let t = s01 + s12;
+        assert(t != 0real && s01 != 0real && s12 != 0real) by(nonlinear_arith) requires s01 * s12 > 0real, t == s01 + s12;
+        assert(f * t == 2real * s01 * s12) by(nonlinear_arith) requires f == 2real * s01 * s12 / t, t != 0real;
+        // both secants have the sign of t
+        assert(s01 * t > 0real && s12 * t > 0real) by(nonlinear_arith) requires s01 * s12 > 0real, t == s01 + s12;
+        // f*s01*t = 2 s01^2 s12   and   (2 s01^2 - f s01) t = 2 s01^3
+        assert((f * s01) * t == 2real * (s01 * s01) * s12) by(nonlinear_arith) requires f * t == 2real * s01 * s12;
+        assert((2real * (s01 * s01) - f * s01) * t == 2real * (s01 * s01) * s01) by(nonlinear_arith) requires f * t == 2real * s01 * s12, t == s01 + s12;
+        assert((f * s12) * t == 2real * (s12 * s12) * s01) by(nonlinear_arith) requires f * t == 2real * s01 * s12;
+        assert((2real * (s12 * s12) - f * s12) * t == 2real * (s12 * s12) * s12) by(nonlinear_arith) requires f * t == 2real * s01 * s12, t == s01 + s12;
+        assert(f * s01 >= 0real && f * s01 <= 2real * (s01 * s01)) by(nonlinear_arith)
+            requires (f * s01) * t == 2real * (s01 * s01) * s12, (2real * (s01 * s01) - f * s01) * t == 2real * (s01 * s01) * s01,
+                     s01 * t > 0real, s12 * t > 0real, t != 0real;
+        assert(f * s12 >= 0real && f * s12 <= 2real * (s12 * s12)) by(nonlinear_arith)
+            requires (f * s12) * t == 2real * (s12 * s12) * s01, (2real * (s12 * s12) - f * s12) * t == 2real * (s12 * s12) * s12,
+                     s01 * t > 0real, s12 * t > 0real, t != 0real;
+    }
+}
+
+/// C05-b: the end-knot slope 3/2 s - 1/2 f1 lies between s/2 and 3s/2 when f1/s is in [0,2]
+pub proof fn lemma_end_slope_range(s: real, f1: real)
+    requires ratio_in(f1, s, 0real, 2real),
+    ensures ratio_in((3real / 2real) * s - (1real / 2real) * f1, s, 1real / 2real, 3real / 2real),
+{
+    let f0 = (3real / 2real) * s - (1real / 2real) * f1;
+    assert(f0 * s == (3real / 2real) * (s * s) - (1real / 2real) * (f1 * s)) by(nonlinear_arith) requires f0 == (3real / 2real) * s - (1real / 2real) * f1;
+}
+}
+
+verus! {
+
+/// C05: what the contracts give at an interior knot and at an end knot, in the form the Fritsch-Carlson monotonicity
+/// condition needs: both one-sided slope ratios f/secant lie in [0,3] (interior: [0,2], ends: [1/2,3/2]) and the slope is 0
+/// wherever an adjacent secant is 0 or the secants differ in sign.
+pub proof fn lemma_c05_slope_ratios(s01: real, s12: real)
+    ensures ({
+        let f1 = kruger(s01, s12);
+        let f0 = (3real / 2real) * s01 - (1real / 2real) * f1;   // end-knot slope next to an interior knot
+        &&& ratio_in(f1, s01, 0real, 3real) && ratio_in(f1, s12, 0real, 3real)
+        &&& ratio_in(f0, s01, 0real, 3real)
+        &&& (s01 == 0real ==> f1 == 0real && f0 == 0real)
+        &&& (s12 == 0real ==> f1 == 0real)
+        &&& (s01 * s12 <= 0real ==> f1 == 0real)
+    }),
+{
+    lemma_kruger_range(s01, s12);
+    let f1 = kruger(s01, s12);
+    lemma_end_slope_range(s01, f1);
+    assert(s01 * s01 >= 0real && s12 * s12 >= 0real) by(nonlinear_arith);
+    if s01 == 0real { assert(s01 * s12 == 0real) by(nonlinear_arith) requires s01 == 0real; }
+    if s12 == 0real { assert(s01 * s12 == 0real) by(nonlinear_arith) requires s12 == 0real; }
+}
+
 } // verus!
 fn main() {}
